@@ -31,7 +31,13 @@ def check(item):
         # the same nested fields spelled as a flat list of dotted names / as dotted keys: the same query, to the letter
         if cfgd["nested_fields"] and not R.leafless_levels(cfgd["nested_fields"]):
             flat = sorted(R.spec_paths(cfgd["nested_fields"]))
-            for how, spelling in (("a list of dotted names", flat), ("dotted keys", {k: None for k in reversed(flat)})):
+            levels = {}
+            for leaf in flat:
+                levels.setdefault(leaf.rsplit(".", 1)[0], []).append(leaf.rsplit(".", 1)[1])
+            deepest_first = {k: levels[k] for k in sorted(levels, key=lambda k: (-k.count("."), k))}
+            for how, spelling in (("a list of dotted names", flat), ("dotted keys", {k: None for k in reversed(flat)}),
+                                  ("one dotted key per level, deepest first", deepest_first),
+                                  ("one dotted key per level, deepest last", {k: deepest_first[k] for k in reversed(list(deepest_first))})):
                 n += 1
                 try:
                     js2 = ElasticsearchQueryBuilder(**dict(cfgd, nested_fields=spelling))(t)
